@@ -293,6 +293,33 @@ func funcFailure(expression string, env map[string]any, callErr error) error {
 	return nil
 }
 
+// isSingleOperand reports whether expr is one operand - a path, a call or a parenthesised
+// expression - rather than several operands joined by a binary or ternary operator at the top
+// level.
+func isSingleOperand(expr string) bool {
+	expr = strings.TrimSpace(expr)
+	depth := 0
+	var quote byte
+	for i := 0; i < len(expr); i++ {
+		ch := expr[i]
+		switch {
+		case quote != 0:
+			if ch == quote {
+				quote = 0
+			}
+		case ch == '"' || ch == '\'':
+			quote = ch
+		case ch == '(' || ch == '[':
+			depth++
+		case ch == ')' || ch == ']':
+			depth--
+		case depth == 0 && (ch == ' ' || ch == '|' || ch == '&' || ch == '?' || ch == '=' || ch == '<' || ch == '>' || ch == '+' || ch == '*' || ch == '/' || ch == '%'):
+			return false
+		}
+	}
+	return expr != ""
+}
+
 // evalSegment evaluates a single pipe segment (either filter or expression)
 // isFirst indicates if this is the first segment
 // fromInitial indicates if the input came from initial variable resolution
@@ -302,15 +329,20 @@ func (v *Vue) evalSegment(ctx VueContext, seg pipeSegment, input any, isFirst, f
 		return v.evalFilter(ctx, seg, input, isFirst, fromInitial)
 	case segmentExpr:
 		// Use expr library with . representing the input value
-		env := v.exprEnv(ctx)
+		env, callErr := v.exprEnvWithErr(ctx)
 		if input != nil {
 			env["."] = input
 		}
 		result, err := v.exprEval.Eval(seg.expr, env)
 		if err != nil {
+			// A failing or unknown template function fails the render, whatever surrounds it.
+			if ferr := funcFailure(seg.expr, env, *callErr); ferr != nil {
+				return nil, ferr
+			}
 			// The expression library cannot negate nil or non-boolean values; negate the
-			// truthiness of the operand instead, like conditions do.
-			if trimmed := strings.TrimSpace(seg.expr); strings.HasPrefix(trimmed, "!") {
+			// truthiness of the operand instead, like conditions do - but only when the
+			// whole expression is one negated operand (!a || b is not !(a || b)).
+			if trimmed := strings.TrimSpace(seg.expr); strings.HasPrefix(trimmed, "!") && isSingleOperand(trimmed[1:]) {
 				if inner, innerErr := v.exprEval.Eval(strings.TrimSpace(trimmed[1:]), env); innerErr == nil {
 					return !helpers.IsTruthy(inner), nil
 				}
